@@ -2,7 +2,7 @@
 From Coq Require Import ZArith Reals List.
 From Tevec Require Import Base.Prelude Base.Num Base.XR Spec.Stats Spec.Ols Spec.Extrema Model.Driver
      Model.Features Model.Cmp Model.Norm Model.Binary Model.Reg Model.Fdiff Proofs.Generic Proofs.Norm
-     Proofs.Mask Proofs.Mask2 Proofs.Mask3.
+     Proofs.Mask Proofs.Mask2 Proofs.Mask3 Proofs.Mask4.
 Import ListNotations.
 
 (* (1) one output per input, for EVERY add-emit-remove rolling feature, any carrier, both driver
@@ -409,6 +409,80 @@ Theorem C05_index_form_window_zero_rejected :
     1 <= length xs -> idx_run body 0 cb s0 xs = Panicked AssertFail.
 Proof. exact @idx_run_window0. Qed.
 
+(* (6) the plain families ts_sum .. ts_kurt, ts_ewm, ts_wma (the same closures with the never-null dictionary,
+   theorems C01_plain_family_...) on a null-free series: the same masks, the valid count being the window length *)
+Theorem C05_mask_ts_sum :
+  forall (body : bool) (w : nat) (mp : option nat) (rs : list R), 1 <= w ->
+    exists out, ts_run (ts_vsum_f (DT := IsNone_never) w mp) body w (map Some rs) = Done out /\
+      length out = length rs /\
+      forall i, i < length rs ->
+        exists o, nth_error out i = Some o /\ is_null o = below (mp_eff mp w 0) (win w i rs).
+Proof. exact mask_plain_sum. Qed.
+
+Theorem C05_mask_ts_mean :
+  forall (body : bool) (w : nat) (mp : option nat) (rs : list R), 1 <= w ->
+    exists out, ts_run (ts_vmean_f (DT := IsNone_never) w mp) body w (map Some rs) = Done out /\
+      length out = length rs /\
+      forall i, i < length rs ->
+        exists o, nth_error out i = Some o /\ is_null o = orb (below (mp_eff mp w 0) (win w i rs)) (below 1 (win w i rs)).
+Proof. exact mask_plain_mean. Qed.
+
+Theorem C05_mask_ts_var :
+  forall (body : bool) (w : nat) (mp : option nat) (rs : list R), 1 <= w ->
+    exists out, ts_run (ts_vvar_f (DT := IsNone_never) w mp) body w (map Some rs) = Done out /\
+      length out = length rs /\
+      forall i, i < length rs ->
+        exists o, nth_error out i = Some o /\ is_null o = below (mp_eff mp w 2) (win w i rs).
+Proof. exact mask_plain_var. Qed.
+
+Theorem C05_mask_ts_std :
+  forall (body : bool) (w : nat) (mp : option nat) (rs : list R), 1 <= w ->
+    exists out, ts_run (ts_vstd_f (DT := IsNone_never) w mp) body w (map Some rs) = Done out /\
+      length out = length rs /\
+      forall i, i < length rs ->
+        exists o, nth_error out i = Some o /\ is_null o = below (mp_eff mp w 2) (win w i rs).
+Proof. exact mask_plain_std. Qed.
+
+Theorem C05_mask_ts_skew :
+  forall (body : bool) (w : nat) (mp : option nat) (rs : list R), 1 <= w ->
+    exists out, ts_run (ts_vskew_f (DT := IsNone_never) w mp) body w (map Some rs) = Done out /\
+      length out = length rs /\
+      forall i, i < length rs ->
+        exists o, nth_error out i = Some o /\ is_null o = below (mp_eff mp w 3) (win w i rs).
+Proof. exact mask_plain_skew. Qed.
+
+Theorem C05_mask_ts_kurt :
+  forall (body : bool) (w : nat) (mp : option nat) (rs : list R), 1 <= w ->
+    exists out, ts_run (ts_vkurt_f (DT := IsNone_never) w mp) body w (map Some rs) = Done out /\
+      length out = length rs /\
+      forall i, i < length rs ->
+        exists o, nth_error out i = Some o /\ is_null o = below (mp_eff mp w 4) (win w i rs).
+Proof. exact mask_plain_kurt. Qed.
+
+Theorem C05_mask_ts_ewm :
+  forall (body : bool) (w : nat) (mp : option nat) (rs : list R), 1 <= w ->
+    exists out, ts_run (ts_vewm_f (DT := IsNone_never) w mp) body w (map Some rs) = Done out /\
+      length out = length rs /\
+      forall i, i < length rs ->
+        exists o, nth_error out i = Some o /\ is_null o = orb (below (mp_eff mp w 0) (win w i rs)) (below 1 (win w i rs)).
+Proof. exact mask_plain_ewm. Qed.
+
+Theorem C05_mask_ts_wma :
+  forall (body : bool) (w : nat) (mp : option nat) (rs : list R), 1 <= w ->
+    exists out, ts_run (ts_vwma_f (DT := IsNone_never) w mp) body w (map Some rs) = Done out /\
+      length out = length rs /\
+      forall i, i < length rs ->
+        exists o, nth_error out i = Some o /\ is_null o = orb (below (mp_eff mp w 0) (win w i rs)) (below 1 (win w i rs)).
+Proof. exact mask_plain_wma. Qed.
+
+Example C05_example_plain_sum :
+  exists out, ts_run (ts_vsum_f (A := XR) (DT := IsNone_never) 2 None) true 2 (map Some [1%R; 2%R; 3%R]) = Done out /\
+    (exists o, nth_error out 0 = Some o /\ is_null o = false).
+Proof.
+  destruct (C05_mask_ts_sum true 2 None [1%R; 2%R; 3%R] ltac:(auto)) as (out & H1 & _ & H3).
+  exists out. split; [exact H1|exact (H3 0 ltac:(cbn; auto))].
+Qed.
+
 (* non-vacuity: a window of 2 over [1, NaN, 3] with min_periods 2 *)
 Example C05_example :
   exists out, ts_run (ts_vsum_f (A := XR) 2 (Some 2)) true 2 [Some 1%R; None; Some 3%R] = Done out /\ length out = 3.
@@ -523,3 +597,11 @@ Print Assumptions C05_index_form_empty_in_empty_out.
 Print Assumptions C05_extrema_one_output_per_input.
 Print Assumptions C05_rank_one_output_per_input.
 Print Assumptions C05_index_form_window_zero_rejected.
+Print Assumptions C05_mask_ts_sum.
+Print Assumptions C05_mask_ts_mean.
+Print Assumptions C05_mask_ts_var.
+Print Assumptions C05_mask_ts_std.
+Print Assumptions C05_mask_ts_skew.
+Print Assumptions C05_mask_ts_kurt.
+Print Assumptions C05_mask_ts_ewm.
+Print Assumptions C05_mask_ts_wma.
